@@ -6,6 +6,7 @@ from .. import hgen
 from ..hbase import STUBS
 from ..hlib import c18 as L
 from .common import BASE_ASSUMPTIONS, ROOT, Cond, Spec
+from ..runner import innermost as U
 
 
 def model_validation(tier):
@@ -56,7 +57,7 @@ def build(tier):
     return Spec(
         pid="C18", source=src, conds=conds,
         functions_encoded=[pathio.PathIO, pathio.AsyncPathIO, pathio.MemoryPathIO, pathio.universal_exception, pathio.defend_file_methods, pathio._blocking_io, pathio.AsyncPathIOContext,
-                           aioftp.Server.stor.__wrapped__.__wrapped__, aioftp.Server.rnto.__wrapped__.__wrapped__.__wrapped__, aioftp.Server.dispatcher],
+                           U(aioftp.Server.stor), U(aioftp.Server.rnto), aioftp.Server.dispatcher],
         bounds={
             "tree": "universe /a, /a/f, /a/d, /a/d/g, /f each absent / file / directory (consistent with its parents; 51 trees), two file contents" + (" (quick: /f is a file; behind the server /a is a directory, /a/f absent or a file, /a/d absent or a directory, /a/d/g absent or a file: 6 trees)" if q else ""),
             "backend API (PathIO vs AsyncPathIO over ModelPath)": f"one operation of {L.OPS} with arguments from {L.ARGS} (rename: both arguments)",
